@@ -7,6 +7,7 @@ class Reader:
     lines: List[str]
     pos: int    # Line index of current line.
     escaped: int    # Line index of the last line whose escaping backslash was dropped.
+    expansions: List[int]   # End line indexes of the nested line macro expansions enclosing the current line.
 
     def __init__(self, text: str):
         # Used internally by spans package.
@@ -21,6 +22,7 @@ class Reader:
         self.lines = re.split(r'\r\n|\r|\n', text)
         self.pos = 0
         self.escaped = -1
+        self.expansions = []
 
     @property
     def cursor(self) -> str:
@@ -36,6 +38,19 @@ class Reader:
         '''Drop the escaping backslash from the current line, the line is now paragraph text.'''
         self.cursor = self.cursor[1:]
         self.escaped = self.pos
+
+    def insertExpansion(self, lines: List[str], maxDepth: int) -> bool:
+        '''Insert the lines of a macro expansion just ahead of the cursor.
+           Return False (inserting nothing) if the cursor is already inside maxDepth nested expansions.'''
+        while self.expansions and self.pos >= self.expansions[-1]:
+            self.expansions.pop()
+        if len(self.expansions) >= maxDepth:
+            return False
+        pos = self.pos + 1
+        self.lines[pos:pos] = lines
+        self.expansions = [end + len(lines) for end in self.expansions]
+        self.expansions.append(pos + len(lines))
+        return True
 
     def eof(self) -> bool:
         '''Return true if the cursor has advanced over all input self.lines.'''
